@@ -233,6 +233,43 @@ GEN.update({
 })
 
 
+# ---- round 4: decision / glue logic.  Keyset factory wrappers (candidate-selection loops): the element type is an abstract
+# type Prim with abstract single-key operations, prefixmap.PrefixMap / Iterator are abstract (PrimitivesMatchingPrefix = `matching`,
+# Iterator.Next = `next`, a -step: it returns the element, the ok flag and the advanced iterator), monitoring loggers are dropped.
+_M = "github.com/tink-crypto/tink-go/v2/"
+
+
+def _factory(name, pkg, sub, recv, elem, funcs, ops, match_fn, next_fn):
+    a = ["-ns", "TinkVerif.Gen." + name, "-pkg", pkg, "-sub", sub, "-recv", recv, "-funcs", funcs,
+         "-abs", _M + pkg + "." + elem + "=Prim", "-abs", _M + "internal/prefixmap.PrefixMap=PMap",
+         "-abs", _M + "internal/prefixmap.Iterator=Iter", "-ignore", "(monitoring.Logger).Log,(monitoring.Logger).LogFailure"]
+    for fn, callee, nm in ops:
+        a += ["-opaque", "%s:(*%s.%s).%s=%s" % (fn, pkg, elem, callee, nm)]
+    a += ["-opaque", "%s:(*internal/prefixmap.PrefixMap[%s.%s]).PrimitivesMatchingPrefix=matching" % (match_fn, pkg, elem),
+          "-step", "%s:(*internal/prefixmap.Iterator[%s.%s]).Next=next" % (next_fn, pkg, elem)]
+    return a
+
+
+GEN.update({
+    "GlueFactoryAead": {"owner": ["C01", "C02", "C05"], "tool": "gluetr", "args": _factory(
+        "GlueFactoryAead", "aead", "AeadFactory", "wrappedAead", "aeadAndKeyID", "Decrypt,Encrypt",
+        [("Decrypt", "Decrypt", "dec"), ("Encrypt", "Encrypt", "enc")], "Decrypt", "Decrypt")},
+    "GlueFactoryDaead": {"owner": ["C05", "C08"], "tool": "gluetr", "args": _factory(
+        "GlueFactoryDaead", "daead", "DaeadFactory", "wrappedDAEAD", "daeadAndKeyID", "DecryptDeterministically,EncryptDeterministically",
+        [("DecryptDeterministically", "DecryptDeterministically", "dec"), ("EncryptDeterministically", "EncryptDeterministically", "enc")],
+        "DecryptDeterministically", "DecryptDeterministically")},
+    "GlueFactoryMac": {"owner": ["C04", "C05"], "tool": "gluetr", "args": _factory(
+        "GlueFactoryMac", "mac", "MacFactory", "wrappedMAC", "macAndKeyID", "tryVerifyMAC,VerifyMAC,ComputeMAC",
+        [("tryVerifyMAC", "VerifyMAC", "ver"), ("ComputeMAC", "ComputeMAC", "comp")], "VerifyMAC", "tryVerifyMAC")},
+    "GlueFactoryVerify": {"owner": ["C03", "C05"], "tool": "gluetr", "args": _factory(
+        "GlueFactoryVerify", "signature", "VerifierFactory", "wrappedVerifier", "verifierAndID", "Verify",
+        [("Verify", "Verify", "ver")], "Verify", "Verify")},
+    "GlueFactoryHybrid": {"owner": ["C05", "C06"], "tool": "gluetr", "args": _factory(
+        "GlueFactoryHybrid", "hybrid", "HybridDecryptFactory", "wrappedHybridDecrypt", "decrypterAndID", "Decrypt",
+        [("Decrypt", "Decrypt", "dec")], "Decrypt", "Decrypt")},
+})
+
+
 def _strip_comments(s):
     import re
     return re.sub(r"/-.*?-/", "", s, flags=re.S)
